@@ -46,6 +46,7 @@ glob(P + "cpp_types.g_method_type_dict", TDict(Str, TDict(Str, MethodInvokeInfo)
 
 # ---------------------------------------------------------------- python ast nodes (external classes, closed list in pyvc/front.py)
 AST = RefOf("ast.AST")
+CALL = RefOf("ast.Call")
 field("func", Ref)
 field("args", TList(Ref))
 field("args", Ref, cls="ast.Lambda")            # Lambda.args is an ast.arguments object
@@ -168,3 +169,14 @@ field("_found_extended_md", TDict(Str, TList(Spec)))
 field("_ecc", Ref)
 field("_method_names", TAbs("Any"), cls=P + "cpp_ast.cpp_ast_finder")
 TRANSFORMER = pseudo_base("verif.Transformer", [P + "cpp_functions.find_known_functions", P + "cpp_ast.cpp_ast_finder"])
+
+# ---------------------------------------------------------------- CPPCodeValue (common/cpp_ast.py): an ast node carrying C++ to inline
+CCV = P + "cpp_ast.CPPCodeValue"
+field("link_libraries", TList(Str))
+field("initialization_code", TList(Str))
+field("running_code", TList(Str))
+field("args", TList(Str), cls=CCV)
+field("replacement_instance_obj", TOpt(TTup([Str, Str])))
+field("result", TOpt(Str))
+field("result_rep", Func)
+field("fields", TList(TTup([VAL, Str])), cls=CCV)
